@@ -457,8 +457,38 @@ class Run:
             "axioms (Print Assumptions): " + (", ".join(axs) if axs else "none (closed under the global context)"),
         ]
         self.cov["checker_cmd"] = f"make -C coq && coqc -Q theories D3 theories/Props/{self.pid}.v  (Print Assumptions vs allow-list; forbidden-token grep)"
+        if self.tier == "thorough" and not self.proof_broken:
+            self.coqchk()
         self.cov["proof_wall_s"] = round(time.time() - t, 1)
         return not self.proof_broken
+
+    def coqchk(self, timeout=1500):
+        """Thorough tier: re-check Props/<pid>.vo and everything it depends on with the independent
+        checker and record the axioms of the whole context (coqchk -o)."""
+        t = time.time()
+        with Slot():
+            rc, out = sh(f"timeout {timeout} coqchk -silent -o -Q theories D3 D3.Props.{self.pid}", cwd=COQ,
+                         timeout=timeout + 30)
+        m = re.search(r"\* Axioms:(.*?)\n\s*\n\* Constants/Inductives relying on type-in-type:(.*?)\n\s*\n"
+                      r"\* Constants/Inductives relying on unsafe \(co\)fixpoints:(.*?)\n\s*\n"
+                      r"\* Inductives whose positivity is assumed:(.*?)\n", out, re.S)
+        info = dict(rc=rc, wall_s=round(time.time() - t, 1))
+        if m:
+            axioms = [a.strip() for a in m.group(1).strip().splitlines() if a.strip() and a.strip() != "<none>"]
+            info.update(axioms=axioms, type_in_type=m.group(2).strip(), unsafe_fixpoints=m.group(3).strip(),
+                        assumed_positivity=m.group(4).strip())
+            bad = [a for a in axioms if not any(a.endswith(x.split(".")[-1]) or x in a for x in ALLOWED_AXIOMS)
+                   and not a.startswith(("Coq.Floats", "Coq.Numbers.Cyclic.Int63", "Coq.Reals"))]
+            if rc != 0 or info["type_in_type"] != "<none>" or info["unsafe_fixpoints"] != "<none>" \
+                    or info["assumed_positivity"] != "<none>":
+                self.proof_broken.append(f"coqchk: rc={rc} {info}")
+            info["axioms_outside_allow_list"] = bad
+        elif rc != 0:
+            # a time-out of the independent re-check is reported, not held against the property
+            info["note"] = "coqchk did not finish within its time limit" if rc == 124 else out[-500:]
+        self.cov["coqchk"] = info
+        self.cov["trusted_base"].append("coqchk -o (independent re-check of the compiled proofs, thorough tier): "
+                                        + json.dumps(info)[:600])
 
     # -- finish ----------------------------------------------------------
     def finish(self):
